@@ -451,6 +451,7 @@ class Canon:
 
     def seq(self, creation, seq):
         out = []
+        pending = None
         cr = strip(creation)
         if cr.k == 'param' and seq:
             # `let mut v = z.to_vec(); v.extend(..)` is `Vec::new()` + extend(z) + ..: the copied slice is the first element
@@ -474,10 +475,62 @@ class Canon:
                 el = '%s:%s(%s)' % ({'be:': 'to_be_bytes', 'le:': 'to_le_bytes', '?e:': 'to_unknown_endian_bytes'}[a.kind[:3]], a.kind[3:], el)
             elif a.kind == 'byte':
                 el = 'byte(%s)' % el
+            elif a.kind == 'other:truncate' and not a.in_loop:
+                # v.truncate(n) with n the length the vector had after its first k elements: back to those k elements
+                cut = None
+                for k_ in range(len(out), -1, -1):
+                    if el == ('len([%s])' % ', '.join(out[:k_]) if k_ else '0') or (k_ == 1 and el == 'len(%s)' % out[0]):
+                        cut = k_
+                        break
+                if cut is not None and not any(x.startswith(('LOOP(', 'other:', 'INIT:')) for x in out):
+                    out = out[:cut]
+                    continue
+                el = '%s(%s)' % (a.kind, el)
+            elif a.kind == 'other:index_mut' and not a.in_loop:
+                pending = el
+                continue
+            elif a.kind in ('other:copy_from_slice', 'other:clone_from_slice') and not a.in_loop and pending is not None:
+                # v[len - w ..].copy_from_slice(src) with |src| = w and the last element(s) of v of total length w:
+                # those elements are replaced by src
+                w = self.byte_len(el)
+                done_ = False
+                if w and not any(x.startswith(('LOOP(', 'other:', 'INIT:')) for x in out):
+                    want_off = 'RangeFrom::RangeFrom{SubWithOverflow(len([%s]), %d).0}' % (', '.join(out), w)
+                    tot, k_ = 0, len(out)
+                    while k_ > 0 and tot < w:
+                        bl_ = self.byte_len(out[k_ - 1])
+                        if not bl_:
+                            break
+                        tot += bl_
+                        k_ -= 1
+                    if pending == want_off and tot == w:
+                        out = out[:k_] + [el]
+                        done_ = True
+                if not done_:
+                    out.append('other:index_mut(%s)' % pending)
+                    out.append('%s(%s)' % (a.kind, el))
+                pending = None
+                continue
             elif a.kind.startswith('other:'):
                 el = '%s(%s)' % (a.kind, el)
             out.append(el)
+        if pending is not None:
+            out.append('other:index_mut(%s)' % pending)
         return out
+
+    def byte_len(self, el):
+        """byte length of a rendered element when it is evident from its form"""
+        import re as _re
+        if el.startswith('bytes:') and _re.match(r'^bytes:([0-9a-f]{2})+$', el):
+            return (len(el) - 6) // 2
+        if _re.match(r'^(byte|u8)\(', el):
+            return 1
+        m = _re.match(r'^to_[bl]e_bytes:u(\d+)\(', el)
+        if m:
+            return int(m.group(1)) // 8
+        if el.startswith('sm3_hash('):
+            return 32
+        return None
 
     def const_value(self, e):
         """integer value of a constant operand (literal array, or a constant item of the workspace), else None"""
